@@ -27,4 +27,14 @@ MUTANTS = [
     m("c11-twin-woodbury-rewrite-with-sign", None, "            2\n            * self._sign\n            * (self.inv @ (self.factor_matrix.array @ self.inner_pos_def_matrix))", "            2\n            * self._sign\n            * (self.pos_def_matrix.inv @ (self.factor_matrix.array @ self.capacitance_matrix.inv))", twin=True),
     m("c11-twin-factor-two", None, "        return np.diag(2 / self.factor.diagonal)", "        return 2 * np.diag(1 / self.factor.diagonal)", twin=True),
     m("c11-twin-outer-order", None, "        return -np.outer(inv_matrix_vector, inv_matrix_vector)", "        return np.outer(-inv_matrix_vector, inv_matrix_vector)", twin=True),
+    m("c11-softabs-logdet-times-eigval", "R2", "        grad_eigval = self.grad_softabs(self.unreg_eigval) / self.eigval", "        grad_eigval = self.grad_softabs(self.unreg_eigval) * self.eigval"),
+    m("c11-softabs-logdet-grad-at-regularised", "R1", "        grad_eigval = self.grad_softabs(self.unreg_eigval) / self.eigval", "        grad_eigval = self.grad_softabs(self.eigval) / self.eigval"),
+    m("c11-softabs-den-regularised", "R1", "        den_j_mtx = self.unreg_eigval[:, None] - self.unreg_eigval[None, :]", "        den_j_mtx = self.eigval[:, None] - self.eigval[None, :]"),
+    m("c11-softabs-den-diagonal-unfilled", "R1", "        np.fill_diagonal(den_j_mtx, 1)\n", ""),
+    m("c11-softabs-evct-unscaled", "R2", "        e_vct = (self.eigvec.T @ vector) / self.eigval", "        e_vct = self.eigvec.T @ vector"),
+    m("c11-softabs-num-diag-value-not-derivative", "R1", "        num_j_mtx += np.diag(self.grad_softabs(self.unreg_eigval))\n", "        num_j_mtx += np.diag(self.softabs(self.unreg_eigval))\n"),
+    m("c11-block-logdet-skips-last", "R3", "            return tuple(block.grad_log_abs_det for block in self._blocks)", "            return tuple(block.grad_log_abs_det for block in self._blocks[:-1])"),
+    m("c11-block-quadform-whole-vector", "R3", "                block.grad_quadratic_form_inv(vector_part)\n", "                block.grad_quadratic_form_inv(vector)\n"),
+    m("c11-block-quadform-reversed-parts", "R3", "                    self._split(vector, axis=0),\n                    strict=True,", "                    reversed(self._split(vector, axis=0)),\n                    strict=True,"),
+    m("c11-twin-block-logdet-listcomp", None, "            return tuple(block.grad_log_abs_det for block in self._blocks)", "            return tuple([b.grad_log_abs_det for b in self._blocks])", twin=True),
 ]
